@@ -61,7 +61,7 @@ func (x *Exec) execInstr(fr *Frame, b *ssa.BasicBlock, st *State, in ssa.Instruc
 	case *ssa.FieldAddr:
 		p := x.val(fr, in.X)
 		x.checkNonNil(fr, st, p, in.Pos(), "field "+fieldName(in.X.Type().(*types.Pointer).Elem(), in.Field))
-		x.guardedFieldAccess(fr, st, p, in.X.Type().(*types.Pointer).Elem(), in.Field, in.Pos())
+		x.guardedFieldAccess(fr, st, p, in.X.Type().(*types.Pointer).Elem(), in.Field, in.Pos(), in)
 		np := *p.P
 		np.Path = append(append([]PathElem(nil), p.P.Path...), PathElem{Field: in.Field})
 		if np.Cell == nil && np.ObjT == nil {
@@ -313,6 +313,23 @@ func (x *Exec) unop(fr *Frame, st *State, in *ssa.UnOp) *Value {
 			}
 			if gv := x.globalInit(fr, st, v.P, in.Type()); gv != nil {
 				return gv
+			}
+			if len(v.P.Path) == 0 && x.isNonnilGlobal(v.P.Global) {
+				// `global pkg.Var = nonnil`: never assigned outside init (checked syntactically on every run),
+				// and the package initialiser's contract proves the value it stores is not nil
+				lv := x.load(st, v.P, in.Type())
+				x.trusted["package variable "+v.P.Global+" keeps the non-nil value its package initialiser stores (no assignment to it exists outside init - checked syntactically on every run; the initial value is an obligation of the init contract)"] = true
+				switch lv.K {
+				case KIface:
+					x.assume(st, Not(Eq(lv.Tag, IntLit(0))))
+				case KPtr:
+					x.assume(st, Not(Eq(ptrAsRef(lv.P), x.null())))
+				case KScalar:
+					if lv.Term.Sort == RefSort {
+						x.assume(st, Not(Eq(lv.Term, x.null())))
+					}
+				}
+				return lv
 			}
 		}
 		return x.load(st, v.P, in.Type())
@@ -1133,4 +1150,14 @@ func (x *Exec) boundRefs(v *Value, bound *Term) {
 			}
 		}
 	}()
+}
+
+func (x *Exec) isNonnilGlobal(g string) bool {
+	if x.nonnilGlobals[g] {
+		return true
+	}
+	if i := strings.LastIndex(g, "/"); i >= 0 {
+		return x.nonnilGlobals[g[i+1:]]
+	}
+	return false
 }
